@@ -127,6 +127,7 @@ func runC15(c *Ctx) {
 	c15GenFlush(c)
 	ruleOpenTruncates(c, "OPEN-TRUNCATES")
 	ruleStaleErr(c, "R-STALE-ERR", c.P.ModulePkgs())
+	ruleErrOverwrittenInLoop(c, "R-ERRLOOP", c.P.ModulePkgs())
 	// the module cache's archive object is requested atomically (shared with C09 MARKER-ATOMIC)
 	c.Rule("ATOMIC-REQUESTED", "objects whose presence means \"complete\" to a reader are written with the atomic option", 1)
 	if pkStore := c.P.Pkg("private/bufpkg/bufmodule/bufmodulestore"); pkStore != nil {
@@ -613,6 +614,18 @@ func c15AtomicWriter(c *Ctx) {
 		}
 	}
 	c.Ob(rule, ssaFuncName(closeFn)+"/remove-on-failure", closeFn.Pos(), okFailRm, true, "when Close or a Write failed the temp file is removed instead of renamed: %v", okFailRm)
+	// what is removed is the temporary file: every os.Remove of the close function takes the temp file's own name
+	// ((*os.File).Name()) - removing the final path instead destroys the previous object and leaves the half-written
+	// temp file behind as a new one; and the rename goes from that name to something else
+	isFileName := func(cc *ssa.CallCommon) bool { return isCall(cc, "os", "File", "Name") }
+	for i, rm := range removes {
+		okArg := len(rm.Call.Args) == 1 && dependsOnCall(rm.Call.Args[0], isFileName)
+		c.Ob(rule, fmt.Sprintf("%s/remove-target#%d", ssaFuncName(closeFn), i+1), rm.Pos(), okArg, true, "os.Remove is given the temporary file's name: %v", okArg)
+	}
+	for i, rn := range renames {
+		okArg := len(rn.Call.Args) == 2 && dependsOnCall(rn.Call.Args[0], isFileName) && !dependsOnCall(rn.Call.Args[1], isFileName)
+		c.Ob(rule, fmt.Sprintf("%s/rename-direction#%d", ssaFuncName(closeFn), i+1), rn.Pos(), okArg, true, "os.Rename goes from the temporary file's name to the final path: %v", okArg)
+	}
 	// every return of Close on the atomic failing edges is non-nil: return value depends on the guard value
 	// --- Write: failing write is remembered
 	okStore := false
